@@ -4,7 +4,7 @@ from vf.props.common import *
 def spec(tier):
     th = tier == "thorough"
     obs = []
-    K = 14 if th else 12
+    K = 16 if th else 12
     # priority scheduler: 3 pipelines, a late QUERY arrival forces preemption of multi-operator containers
     mixes = [(3, 1, 2), (3, 3, 1), (2, 1, 1), (2, 1, 3)] + ([(1, 2, 3), (3, 2, 2), (2, 3, 1)] if th else [])
     for pools in ((1, 2) if th else (1,)):
@@ -16,9 +16,9 @@ def spec(tier):
                                   pipe("single", prio=p3, at="tb", durs=[2], mems=[1])])
                 nm = f"prio_P{pools}_{'multi' if multi else 'single'}_{p1}{p2}{p3}"
                 # small pools: contention, preemption, one-tick and multi-tick write-outs
-                obs.append(CH(name=nm + "_cpu", harness="sched.priority", sym=dict(cpus=I(1, 12), ma=I(1, 6), ta=I(0, 3), tb=I(1, 4)),
+                obs.append(CH(name=nm + "_cpu", harness="sched.priority", sym=dict(cpus=I(1, 24 if th else 12), ma=I(1, 6), ta=I(0, 3), tb=I(1, 4)),
                               fixed=dict(cfg=cfg, ram=25, da=2), timeout=1500))
-                obs.append(CH(name=nm + "_ram", harness="sched.priority", sym=dict(ram=I(2, 45), ma=I(1, 6), tb=I(1, 4)),
+                obs.append(CH(name=nm + "_ram", harness="sched.priority", sym=dict(ram=I(2, 90 if th else 45), ma=I(1, 6), tb=I(1, 4)),
                               fixed=dict(cfg=cfg, cpus=2, ta=1, da=2), timeout=1500))
     # three query pipelines (two multi-operator query containers next to each other, a third query waiting)
     cfg = dict(algo="priority", pools=1, multi=True, K=K,
